@@ -257,3 +257,113 @@ class OnceOracle(HOracle):
                     self.violate("C04/delivered-more-than-once", "recipient %r of message %d: reports %r without any crash" % (r.addr, m.num, r.reports))
 
 
+
+
+# ============================================================================ C02
+def pattern_ok(s):
+    """INTERNALS.md section 2: S1..S5 over {mess,intd,todo,info,local,remote,bounce}"""
+    if not s:
+        return "S1"
+    if "mess" not in s:
+        return None
+    if "todo" in s:
+        return None if "bounce" in s else "S4"
+    if "intd" in s:
+        return "S3" if s == {"mess", "intd"} else None
+    if "info" in s:
+        return "S5"
+    return "S2" if s == {"mess"} else None
+
+
+class QueueStateOracle(HOracle):
+    property_id = "C02"
+
+    def __init__(self, res, hist):
+        super().__init__(res, hist)
+        self.last_state = {}
+        self.eliminating = set()
+
+    def check_num(self, num, sim, ev, why):
+        s = sim.pattern_of(num)
+        st = pattern_ok(s)
+        self.res.counters.inc("pattern_checks")
+        key = "".join(c if d in s else "-" for c, d in zip("MITFLRB", qsim.QDIRS))
+        d = self.res.counters.setdefault("distinct_patterns", set())
+        d.add(key)
+        prev = self.last_state.get(num)
+        if prev != key:
+            self.res.counters.setdefault("distinct_transitions", set()).add((prev or "-------", key))
+            self.last_state[num] = key
+        if st is None:
+            self.violate("C02/undocumented-state/%s/by=%s" % (key, (ev.get("prog") or "?").replace("qmail-", "")),
+                         "after %s %s by %s message %d is in pattern %s (mess intd todo info local remote bounce), not S1-S5" % (
+                             ev.get("c"), ev.get("path2") or ev.get("path"), ev.get("prog"), num, key))
+        if "mess" in s:
+            p = sim.qpath("mess", str(num % SPLIT), str(num))
+            try:
+                ino = os.stat(p).st_ino
+                if ino != num:
+                    self.violate("C02/name-not-inode", "mess/%d has inode %d" % (num, ino))
+            except OSError:
+                pass
+
+    def on_step(self, ev, sim):
+        c = ev.get("c")
+        if c not in ("unlink", "link", "rename", "open", "close"):
+            return
+        if ev.get("ret", -1) < 0:
+            return
+        if c == "open" and not ev.get("creat"):
+            return
+        if c == "close":
+            return
+        for d, num in (qparts(ev), qparts2(ev)):
+            if d in qsim.QDIRS and num is not None:
+                self.check_num(num, sim, ev, c)
+        d2, num2 = qparts2(ev)
+        if c == "link" and d2 == "mess" and num2 is not None:
+            s = sim.pattern_of(num2)
+            if s != {"mess"}:
+                self.violate("C02/number-shared", "message number %d given to a new message while files %r of another still exist" % (num2, sorted(s - {"mess"})))
+        d, num = qparts(ev)
+        if c == "unlink" and d == "info" and ev.get("prog") == "qmail-send" and num is not None:
+            if not os.path.exists(sim.qpath("todo", str(num))):
+                self.eliminating.add(num)
+        if c == "unlink" and d == "mess" and num is not None:
+            self.eliminating.discard(num)
+
+    def on_gate(self, ev, sim):
+        # removals by the cleaner outside elimination/preprocessing = garbage collection: only after 36 h, no info, no todo
+        if ev.get("c") != "unlink" or ev.get("prog") != "qmail-clean":
+            return
+        d, num = qparts(ev)
+        if num is None:
+            return
+        if d in ("mess", "intd"):
+            s = sim.pattern_of(num)
+            if "todo" in s and d == "intd":
+                return                      # end of preprocessing: intd then todo
+            if num in self.eliminating:
+                return
+            p = sim.qpath("mess", str(num % SPLIT), str(num))
+            self.res.counters.inc("gc_removals_checked")
+            try:
+                at = int(os.stat(p).st_atime)
+            except OSError:
+                at = None
+            if "info" in s or "todo" in s:
+                self.violate("C02/gc-of-live-message", "qmail-clean removes %s/%d although %r exist" % (d, num, sorted(s)))
+            elif at is not None and not (sim.vnow() > at + OSSIFIED):
+                self.violate("C02/gc-before-36h", "qmail-clean removes %s/%d at age %d s (atime %d, now %d)" % (d, num, sim.vnow() - at, at, sim.vnow()))
+        elif d == "pid" or (ev.get("path") or "").startswith("queue/pid/"):
+            pass
+
+    def on_quiesce(self, q, sim):
+        for num, dirs in sim.scan().items():
+            if not num.isdigit():
+                self.violate("C02/foreign-file", "file named %r in the queue" % num)
+                continue
+            if any(x.startswith("WRONGSPLIT") for x in dirs):
+                self.violate("C02/wrong-split-directory", "message %s filed under the wrong subdirectory: %r" % (num, sorted(dirs)))
+            self.check_num(int(num), sim, {"c": "scan", "prog": "scan"}, "scan")
+        self.res.counters.inc("full_scans")
